@@ -145,9 +145,14 @@ def is_setexpr(node, setnames):
         return True
     if isinstance(node, ast.Name) and node.id in setnames:
         return True
-    if isinstance(node, ast.BinOp) and isinstance(node.op, (ast.BitOr, ast.BitAnd, ast.Sub)) and (is_setexpr(node.left, setnames) or is_setexpr(node.right, setnames)):
-        return True
+    if isinstance(node, ast.BinOp) and isinstance(node.op, (ast.BitOr, ast.BitAnd, ast.Sub, ast.BitXor)) and (
+            is_setexpr(node.left, setnames) or is_setexpr(node.right, setnames) or is_keysview(node.left) or is_keysview(node.right)):
+        return True                                   # d.keys() - e.keys() is a plain set, too
     return False
+
+
+def is_keysview(node):
+    return isinstance(node, ast.Call) and isinstance(node.func, ast.Attribute) and node.func.attr in ("keys", "items") and not node.args
 
 
 def walk_functions(mod):
